@@ -14,6 +14,7 @@ vspec entries:
     @@ breakvalue <alias> <fn key> <'label> <type>     R2
     @@ dropcontinue <alias> <fn key> <#n|'label>       R3
     @@ labelblock <alias> <fn key> <'label>            R9
+    @@ unmutparam <alias> <fn key> <param names..>      R11
     @@ closure <alias> <fn key> <param tokens..>        R10 (params:/ret:/spec:)
     @@ retoken <alias> <kind> <name>   (from:/to:/rule:/note: sections; tokens space separated)
     @@ in <alias|*> <kind> <name-glob>   (items: inserted at the start of the body)
@@ -98,6 +99,11 @@ class Unit:
             elif h[0] == "labelblock":
                 alias, key, label = h[1], h[2], h[3]
                 rsx.r9_label_block(self.sources[alias], self.edits[alias], self._fn(alias, key), label)
+                e.used = True
+            elif h[0] == "unmutparam":
+                alias, key = h[1], h[2]
+                for nm in h[3:]:
+                    rsx.r11_unmut_param(self.sources[alias], self.edits[alias], self._fn(alias, key), nm)
                 e.used = True
             elif h[0] == "closure":
                 alias, key = h[1], h[2]
